@@ -188,3 +188,159 @@ def plan_C18(p, tier, seed):
              'val = int.from_bytes(valb, byteorder="little", signed=atttyp(att) == "I")',
              'val = int.from_bytes(valb, byteorder="little", signed=atttyp(att) == "U")',
              FuncUnit(H + "bytes2val", "I002"))
+
+
+# ----------------------------------------------------------------------------------------------- reader
+W = "pyubx2.socket_wrapper.SocketWrapper."
+T_PARSERS = ("T-NMEA / T-RTCM: pynmeagps.NMEAReader.parse and pyrtcm.RTCMReader.parse are deterministic functions of "
+             "(bytes, options) that return a value or raise one of their library's four exception classes "
+             "(assumed; modelled as uninterpreted functions with congruence)")
+T_PARSE_PURE = ("UBXReader.parse is used in the reader proofs through its contract only: raises nothing but "
+                "UBXParseError/UBXMessageError/UBXTypeError, modifies nothing => a function of its arguments")
+T_STREAM = ("T-IO: a file-like stream behaves like the abstract stream AS (read(k) returns the next min(k, rest) bytes, "
+            "readline() returns up to and including the next LF or the rest); io.BytesIO satisfying AS is assumed")
+T_LIFT = ("lifting from the step contract to whole iterations: induction over steps; the C07 / C09 trace invariants are "
+          "SMT-checked over the proved step clauses, the identification of the abstract transition relation with those "
+          "clauses is by construction, not by a second proof")
+
+
+def _reader_common(p, styles=("file", "socket"), lemmas=()):
+    from . import reader_units as ru
+    for st in styles:
+        u = CustomUnit(f"{R}read/step[{st}]", ru.step_unit, (st,), props=(p.prop,), cost=50)
+        p.add(u)
+    for lm in lemmas:
+        p.add(CustomUnit(f"lemma.reader/{lm}", ru.lemma_unit, (lm,), props=(p.prop,), cost=5))
+    p.trusted_base += [T_PARSERS, T_PARSE_PURE, T_STREAM, T_LIFT,
+                       "contracts/reader_spec.py (executable step specification, written from the framing rules); "
+                       "cross-checked natively against the real reader as a bounded stand-in"]
+    p.assumptions += [T_PARSERS, T_STREAM]
+
+
+def _step_canary(p, name, old, new, style="file", module="pyubx2.ubxreader"):
+    from . import reader_units as ru
+    p.canary(name, module, old, new, CustomUnit("x", ru.step_unit, (style,), cost=50))
+
+
+def _spec_crosscheck(p, tier, seed):
+    from . import bounded
+    p.add(BoundedUnit("bounded.reader/spec-step-vs-real-reader", bounded.spec_vs_reader, (tier, seed), props=(p.prop,)))
+
+
+def plan_C07(p, tier, seed):
+    from . import reader_units as ru
+    p.explanation = (
+        "One iteration of the loop of UBXReader.read (the step) is executed symbolically from an arbitrary stream "
+        "position over the abstract stream (any contents, any length) for every reader configuration, and proved "
+        "(a) directly: a delivered raw item is a slice data[s:pos'] with pos <= s starting with a preamble byte; "
+        "(None, None) only when pos' == n; every non-terminal step consumes >= 1 byte; (b) equal to the executable "
+        "step specification. _read_bytes / _read_line are verified against functional contracts. The whole-iteration "
+        "claim follows by the SMT-checked trace invariant (items disjoint and increasing).")
+    _reader_common(p, styles=("file",), lemmas=("basic[file]", "eof_at_end[file]"))
+    p.func(R + "_read_bytes")
+    p.func(R + "_read_line")
+    p.func(R + "__next__")
+    p.add(CustomUnit("lemma.lifting/C07", ru.lifting_unit, ("C07",), props=("C07",)))
+    _spec_crosscheck(p, tier, seed)
+    p.min_obligations = 1000
+    _step_canary(p, "parse_ubx-short-by-one", "self._read_bytes(leni + 2)", "self._read_bytes(leni + 1)")
+    _step_canary(p, "rtcm-size-shift", "size = hdr3[0] | (hdr[1] << 8)", "size = 1 + (hdr3[0] | (hdr[1] << 8))")
+    p.canary("read_bytes-eof-on-zero", "pyubx2.ubxreader", "if len(data) == 0 and size > 0:  # EOF", "if len(data) == 0:  # EOF",
+             FuncUnit(R + "_read_bytes"))
+
+
+def plan_C06(p, tier, seed):
+    p.explanation = (
+        "Step contract (real loop body == executable step specification, file and socket style) plus one lemma per "
+        "segment kind over the specification: from the first byte of a well-formed UBX / NMEA / RTCM3 segment "
+        "(or a noise byte) the step consumes exactly that segment; it is delivered as (raw == the segment, parsed == "
+        "the protocol parser's result under the reader's options) iff the parser accepts it and the filter passes it; "
+        "a segment its parser rejects is consumed and nothing after it is disturbed. Whole-stream claim: induction over "
+        "segments (position is always a segment start).")
+    _reader_common(p, lemmas=("segment[noise]", "segment[ubx]", "segment[nmea]", "segment[rtcm]", "basic[file]",
+                               "eof_at_end[file]"))
+    p.func(R + "__next__")
+    _spec_crosscheck(p, tier, seed)
+    p.min_obligations = 2000
+    _step_canary(p, "parse_ubx-short-by-one", "self._read_bytes(leni + 2)", "self._read_bytes(leni + 1)")
+    _step_canary(p, "rtcm-size-shift", "size = hdr3[0] | (hdr[1] << 8)", "size = 1 + (hdr3[0] | (hdr[1] << 8))")
+    _step_canary(p, "nmea-raw-drops-header", "raw_data = hdr + byten\n", "raw_data = byten\n")
+
+
+def plan_C09(p, tier, seed):
+    from . import reader_units as ru
+    p.explanation = (
+        "Two-run lemma over the step specification: S[:k] and S from the same position p <= k give the identical step, "
+        "or the cut stream ends there (EOF, or a truncated frame dropped with the stream exhausted); an item from the "
+        "cut stream is always the same complete frame; a frame lying wholly before the cut is handled identically. "
+        "The real loop body is proved equal to the specification (step contract). Joint trace invariant SMT-checked.")
+    _reader_common(p, styles=("file",), lemmas=("cut", "basic[file]", "eof_at_end[file]"))
+    p.func(R + "_read_bytes")
+    p.func(R + "_read_line")
+    p.add(CustomUnit("lemma.lifting/C09", ru.lifting_unit, ("C09",), props=("C09",)))
+    _spec_crosscheck(p, tier, seed)
+    p.min_obligations = 1500
+    p.canary("read_bytes-returns-partial", "pyubx2.ubxreader", "if 0 < len(data) < size:  # truncated stream",
+             "if False:  # truncated stream", FuncUnit(R + "_read_bytes"))
+    _step_canary(p, "ubx-frame-without-checksum-bytes", "self._read_bytes(leni + 2)", "self._read_bytes(leni)")
+
+
+def plan_C10(p, tier, seed):
+    from . import reader_units as ru
+    p.explanation = (
+        "SocketWrapper._recv / read / readline are verified against functional contracts over a ghost socket whose "
+        "recv hands out the next 1..bufsize bytes of the peer's byte sequence in order (any chunking, any bufsize >= 1) "
+        "and fails (close, timeout, OSError) only after the last byte: read(n) returns exactly n bytes or nothing, "
+        "readline returns up to and including the next LF; loops by invariant, termination by decreases. The socket-"
+        "style abstract stream of the reader proofs satisfies the same clauses (refinement lemma). Two-run lemma over "
+        "the step specification: socket style and file style give the same step until the first unsatisfiable read, "
+        "where both stop without an item. UBXReader.__init__ wraps sockets.")
+    _reader_common(p, lemmas=("style", "basic[socket]", "eof_at_end[socket]"))
+    for m in ("_recv", "read", "readline"):
+        p.func(W + m)
+    p.func(R + "__init__")
+    p.add(CustomUnit("lemma.C10/as-socket[read]", ru.as_socket_refinement_unit, ("read",), props=("C10",)))
+    p.add(CustomUnit("lemma.C10/as-socket[readline]", ru.as_socket_refinement_unit, ("readline",), props=("C10",)))
+    from . import bounded
+    p.add(BoundedUnit("bounded.C10/real-tcp-loopback", bounded.tcp_loopback, (tier, seed), props=("C10",)))
+    p.min_obligations = 2500
+    p.assumptions += ["T-TCP: in-order, loss-free delivery; recv fails only after the last byte (the property's own "
+                      "quantifier); real concurrent sender threads are exercised only by the bounded loopback stand-in"]
+    p.canary("socket-read-skips-byte", "pyubx2.socket_wrapper", "self._buffer = self._buffer[num:]",
+             "self._buffer = self._buffer[num + 1 :]", FuncUnit(W + "read"))
+    p.canary("recv-drops-data", "pyubx2.socket_wrapper", "            self._buffer += data\n", "            pass\n",
+             FuncUnit(W + "_recv"))
+    p.canary("readline-stops-late", "pyubx2.socket_wrapper", 'if line[-1:] == b"\\n":  # LF', 'if line[-2:-1] == b"\\n":  # LF',
+             FuncUnit(W + "readline"))
+
+
+def plan_C11(p, tier, seed):
+    p.explanation = (
+        "Two-run lemmas over the step specification: protfilter=F versus all protocols (same bytes consumed by every "
+        "step; an item of the unfiltered run is the same item in the filtered run iff its protocol - classified by the "
+        "contract of ubxhelpers.protocol - is in F, else it is skipped; nothing new appears), and parsing=False versus "
+        "True (same framing, same raw, parsed None, unless a parser rejects the frame). Real loop body == specification.")
+    _reader_common(p, lemmas=("filter", "parsing", "basic[file]", "basic[socket]"))
+    p.func(H + "protocol")
+    _spec_crosscheck(p, tier, seed)
+    p.min_obligations = 2500
+    _step_canary(p, "ubx-filter-uses-nmea-bit", "if self._protfilter & UBX_PROTOCOL:\n                        parsing = False",
+                 "if self._protfilter & NMEA_PROTOCOL:\n                        parsing = False")
+    _step_canary(p, "filtered-frame-not-consumed", "        byten = self._read_bytes(leni + 2)\n",
+                 "        byten = self._read_bytes(leni + 2 if self._protfilter & UBX_PROTOCOL else 2)\n")
+
+
+def plan_C12(p, tier, seed):
+    p.explanation = (
+        "The step specification does not depend on quitonerror; the real loop body is proved equal to it for every "
+        "quitonerror in {0,1,2} (same kind, position, raw, parsed), and the reporting clauses are proved on the real "
+        "body: a rejected frame under ERR_LOG produces exactly one report (error handler if present, else logger.error) "
+        "carrying the rejecting exception, nothing is reported for delivered / skipped frames or under ERR_IGNORE, and "
+        "under ERR_RAISE read() raises exactly that exception.")
+    _reader_common(p, lemmas=("basic[file]",))
+    _spec_crosscheck(p, tier, seed)
+    p.min_obligations = 2000
+    _step_canary(p, "log-also-when-ignoring", "                if self._quitonerror:\n                    self._do_error(err)",
+                 "                if self._quitonerror == ERR_RAISE:\n                    self._do_error(err)")
+    _step_canary(p, "handler-called-twice", "                self._errorhandler(err)\n",
+                 "                self._errorhandler(err)\n                self._errorhandler(err)\n")
